@@ -86,14 +86,14 @@ CHECKS = {
     "C12": (
         "property-based testing / mutation fuzzing of specifications (corpus from the repository + own generated renderings) through every parser entry point; watchdog for termination; libFuzzer target fz_specs shares the oracle (thorough tier)",
         "exploration",
-        "Mutated near-valid .y/.l/%grmtools texts through ASTWithValidityInfo::new/from_str, YaccGrammar::new/from_str, warnings(), LRNonStreamingLexerDef::from_str/new_with_options, GrmtoolsSectionParser::parse: returns promptly, never panics, Ok or non-empty Err, validity flag consistent, every error/warning span inside the text on char boundaries.",
+        "Mutated near-valid .y/.l/%grmtools texts through ASTWithValidityInfo::new/from_str, YaccGrammar::new/from_str, warnings(), LRNonStreamingLexerDef::from_str/new_with_options (default and generated non-default flag sets), GrmtoolsSectionParser::parse: returns promptly, never panics, Ok or non-empty Err, validity flag consistent, every error/warning span inside the text on char boundaries.",
         "Termination = answer within 5 s (re-confirmed 50 s in a fresh process) for inputs <= 8 KB. Corpus in corpus/specs (tools/mkcorpus.py).",
         "DESIGN.md section 5, C12",
     ),
     "C13": (
         "translation validation by differential testing: generated (grammar, lexer, settings) pairs are compiled by the real compile-time builders inside one cargo build, the resulting binary compares the generated modules with the run-time pipeline on generated inputs",
         "translation_validation",
-        "Per generated program (pair): same lexemes, same value/tree, same errors with the same repair sets, same token_epp and R_*/N_* constants; user actions ($1..$n as Ok/Err, $span, $lexer, $$) validated against a native evaluation of the same action template; settings (yacckind, recoverer, serialisation format, edition, visibility, lexer flags via builder or header) sampled.",
+        "Per generated program (pair): same lexemes, same value/tree, same errors with the same repair sets, same token_epp and R_*/N_* constants; user actions ($1..$n as Ok/Err, $span, $lexer, $$; kinds Grmtools and Original(UserAction); %parse-param by value, as a shared log, behind %parse-generics; unit-typed rules) validated against a native evaluation of the same action template; settings (yacckind, recoverer, serialisation format, edition, visibility, lexer flags via builder or header) sampled.",
         "Trusted: the batch crate's glue (engine/ctbatch), rustc. With several equally ranked repairs only results up to the first error are compared. Storage type u32 only. Besides the pairs, lexer-only items from the C09/C11 lexer generators are built by CTLexerBuilder with a user-supplied rule_ids_map and compared (definition and lexemes) with the run-time definition.",
         "DESIGN.md section 5, C13",
     ),
@@ -128,21 +128,21 @@ CHECKS = {
     "C18": (
         "stateful property-based testing: generated build histories interpreted against the real compile-time builders (one process per build, logical file times), invariant checked after every build against a clean build",
         "exploration",
-        "Histories over {edit grammar, edit lexer, touch, change one of 17 builder options (incl. strictness about missing tokens, the one-call lrpar_config flow, grammar_path switched between directories or through a symbolic link), break grammar (4 ways), break lexer, build}: after every build the generated modules equal a clean build's, regenerated() is false iff nothing changed, true after a grammar/option change, and a failed build leaves no generated file behind.",
+        "Histories over {edit grammar, edit lexer, touch, change one of 18 builder options (incl. every visibility variant, the storage type u32/u16/u8, strictness about missing tokens, the one-call lrpar_config flow, grammar_path switched between directories or through a symbolic link), edit the grammar at exactly the generated module's file time, break grammar (4 ways), break lexer, build}: after every build the generated modules equal a clean build's, regenerated() is false iff nothing changed, true after a grammar/option change, and a failed build leaves no generated file behind.",
         "Trusted: the ctstep child process harness and the logical clock (filetime). A Touch may or may not regenerate.",
         "DESIGN.md section 5, C18",
     ),
     "C19": (
         "property-based testing (proptest choice streams, shrinking) against a naive line/column reference model; thorough tier adds a coverage-guided libFuzzer stage over the same decoder and oracle (artifacts re-judged by the engine)",
         "exploration",
-        "Generated texts x chunkings; every char-boundary offset and every span of each text is queried through NewlineCache, the lexer (line_col, span_lines_str), LexParseError::pp and the builders' SpannedDiagnosticFormatter and compared with a naive scan; exhaustive over offsets/spans per text, random over texts.",
+        "Generated texts x chunkings; every char-boundary offset and every span of each text is queried through NewlineCache, the lexer (line_col, span_lines_str), LexParseError::pp and the builders' SpannedDiagnosticFormatter (location, numbered rows, underline start column and width) and compared with a naive scan; texts of 10+ and 100+ lines included; exhaustive over offsets/spans per text, random over texts.",
         "Trusted: the naive reference (count of LF / chars since line start), proptest, rustc. Both readings of 'span ends at a line start' accepted.",
         "DESIGN.md section 5, C19",
     ),
     "C20": (
         "property-based testing + boundary enumeration: every grammar built with u8, u16 and u32 and compared through digests; panics classified as clean refusals or violations",
         "exploration",
-        "Size-boundary families (rules, tokens, productions, symbols per production, LR states, lexer rules) around 255 and 65535, ordinary grammars of every kind with one or two dimensions inflated to 246..261, plus ordinary grammars: each width either completes with sizes equal to the u32 build and equal digests / parse results, or is refused with the documented StorageT panic; wider widths accept whatever a narrower one accepts.",
+        "Size-boundary families (rules, tokens, productions, symbols per production, LR states, lexer rules) around 255 and 65535, ordinary grammars of every kind with one or two dimensions inflated to 246..261, plus ordinary grammars: each width either completes with sizes equal to the u32 build and equal digests / parse results, or is refused with the documented 'StorageT is not big enough' panic (a bare assertion failure is a violation); wider widths accept whatever a narrower one accepts.",
         "State numbers are compared literally (after fix 4e41918; first up to the canonical breadth-first renumbering for a precise signature); reduce/reduce entries as (token, loser, state). Full digest only below 40 KB of grammar text.",
         "DESIGN.md section 5, C20",
     ),
